@@ -643,14 +643,14 @@ fn run_history(w: &W, f: &FileModel, steps: u64, allow_faults: bool, allow_cut: 
                                 }
                                 // every injected fault may legally cost an extra (error) item
                                 let fault_items = 4 * ((w.eintr_total.get() - f0.0) + (w.eio_total.get() - f0.1));
-                                if items > max_items + fault_items {
+                                if items > max_items.saturating_add(fault_items) {
                                     w.clause("C12.b-iter");
                                     if w.keep_trace {
                                         w.note("history", json!(log));
                                     }
                                     return fail(
                                         "C12.b-iter",
-                                        format!("step {}: {:?} after {:?}: iterator yielded {} items for a request of {} bases and still has not ended (more data than requested, or it never ends)", step, rop, fop, items, max_items - 8),
+                                        format!("step {}: {:?} after {:?}: iterator yielded {} items for a request of {} bases and still has not ended (more data than requested, or it never ends)", step, rop, fop, items, max_items.saturating_sub(8)),
                                     );
                                 }
                             }
